@@ -63,11 +63,11 @@ PROPS.update({
                'That complete_operation_with_result/_error invoke the taken one-shot handler exactly once is an assumed contract (a Kani harness for it did not finish in 25 min); E-B counts results per operation. reset() is bounded (E-B).', design_ref='DESIGN.md 3/C01'),
     'C04': _ev(['protocol'], 'Per-function proof of the QoS2 handshake steps (PUBREC sets exactly one PUBREL for that id and queues it; PUBCOMP only after PUBREC), '
                'of the DUP-flag frame, and of what happens to a half-written publish at connection close; re-queue at close/CONNACK is bounded (E-B).', design_ref='DESIGN.md 3/C04'),
-    'C05': _ev(['protocol'], 'Complete per-function proof for handle_publish / handle_pubrel: QoS1 -> event + one PUBACK at the back; QoS2 -> PUBREC always, event iff id not pending; '
-               'PUBREL -> id released + one PUBCOMP; acks only push_back so they leave in arrival order (dequeue returns the front).', design_ref='DESIGN.md 3/C05'),
-    'C07': _ev(['protocol'], 'Per-function proof: connection-opened queues exactly one CONNECT at the front and arms the deadline; before CONNACK only the '
+    'C05': _ev(['protocol', 'codec'], 'Complete per-function proof for handle_publish / handle_pubrel: QoS1 -> event + one PUBACK at the back; QoS2 -> PUBREC always, event iff id not pending; '
+               'PUBREL -> id released + one PUBCOMP; acks only push_back so they leave in arrival order (dequeue returns the front); and the PUBACK / PUBREC / PUBCOMP the engine queues are proved to go out as the standard\'s wire image in both protocol versions (codec unit).', design_ref='DESIGN.md 3/C05'),
+    'C07': _ev(['protocol', 'codec'], 'Per-function proof: connection-opened queues exactly one CONNECT at the front and arms the deadline; before CONNACK only the '
                'high-priority queue is served and it holds only the CONNECT (W7, proved through service_queue_aux); CONNACK handling (state check, failing code, '
-               'negotiated settings = CONNACK else CONNECT else spec default); DISCONNECT written => PendingDisconnect, which writes nothing.', design_ref='DESIGN.md 3/C07'),
+               'negotiated settings = CONNACK else CONNECT else spec default); DISCONNECT written => PendingDisconnect, which writes nothing. On the wire (codec unit): the MQTT 3.1.1 CONNECT (flags byte, keep alive, client id, will, user name, password) and the DISCONNECT of both versions are proved to be the standard\'s layout of exactly the fields given; the MQTT 5 CONNECT writer is bounded (E-B reference decoder).', design_ref='DESIGN.md 3/C07'),
     'C08': _ev(['protocol'], 'Proof that get_next_service_timepoint_protocol_queue returns "now" exactly when dequeue_operation would return an operation (same spec function next_sendable), '
                'and that the connected service time is <= every armed deadline; liveness ("completes within bounded steps") is not decidable by contracts.', design_ref='DESIGN.md 3/C08'),
     'C09': _ev(['protocol'], 'Proof that a QoS1+ publish leaves the resubmit/user queue only while pending_publish.len() < Receive Maximum, that the in-flight table grows by at most the '
@@ -107,7 +107,7 @@ PROPS['C03']['level_note'] += ' ' + TRUST_COMMON
 PROPS.update({
     'C02': _ev(['codec', 'validate'], 'Unbounded proofs that encode_vli appends exactly the Variable Byte Integer of the value (spec function written from OASIS 1.5.5), that the size function equals its length, '
                'and that the PUBLISH / SUBSCRIBE remaining-length and property-length computations equal the wire layouts of the specification with no overflow or truncation. '
-               'The step interpreter (process_byte_slice_encoding, process_encoding_step, Encoder::encode) is proved to append exactly flat(steps) over any number of calls and buffer sizes; for MQTT 3.1.1 the chain is closed: Encoder::reset leaves steps whose flat() is the OASIS 3.1.1 wire image of PUBLISH, SUBSCRIBE, UNSUBSCRIBE, PUBACK/PUBREC/PUBREL/PUBCOMP, PINGREQ, DISCONNECT (step writers, getters and first-byte function proved). MQTT 5 PUBLISH is proved the same way (flat(steps) == publish5_bytes(packet, alias resolution)). CONNECT and the other MQTT 5 step writers are bounded (E-B reference decoder, Kani).', design_ref='DESIGN.md 3/C02',
+               'The step interpreter (process_byte_slice_encoding, process_encoding_step, Encoder::encode) is proved to append exactly flat(steps) over any number of calls and buffer sizes; for MQTT 3.1.1 the chain is closed: Encoder::reset leaves steps whose flat() is the OASIS 3.1.1 wire image of PUBLISH, SUBSCRIBE, UNSUBSCRIBE, PUBACK/PUBREC/PUBREL/PUBCOMP, PINGREQ, DISCONNECT (step writers, getters and first-byte function proved). MQTT 5 PUBLISH, SUBSCRIBE, UNSUBSCRIBE, PUBACK/PUBREC/PUBREL/PUBCOMP and DISCONNECT, and the MQTT 3.1.1 CONNECT, are proved the same way. Only the MQTT 5 CONNECT writer (and AUTH, never sent) is bounded (E-B reference decoder, Kani).', design_ref='DESIGN.md 3/C02',
                technique='Verus function contracts on the extracted length / size / encode_vli functions against spec functions of the OASIS wire layouts + Kani harnesses of the step encoder (bounded stand-in for byte production)',
                level_note=TRUST_COMMON + ' String byte length is an uninterpreted function blen(); &str-length functions are assumed here and decided by E-K.'),
     'C16': _ev(['validate'], 'Unbounded proofs, in both directions (Ok <=> rules hold), for validate_user_properties, validate_publish_packet_outbound(_internal), '
